@@ -32,6 +32,11 @@ type SlowScen struct {
 	RecordDuring bool   `json:"record_during,omitempty"`
 	RecordOther  bool   `json:"record_other,omitempty"`
 	ManyDue      bool   `json:"many_due,omitempty"`
+	// ScanWaits: the scan itself has to wait: another public call (ForAllRecordsDo with a visitor that
+	// takes SleepMs) holds the process when the scan is requested, and flow 0's active deadline
+	// passes during that wait. The scan runs after the deadline, so it hands flow 0 over, and
+	// re-arms it from the time it ran.
+	ScanWaits bool `json:"scan_waits,omitempty"`
 }
 
 // SlowScens is the standard list.
@@ -43,6 +48,7 @@ func SlowScens() []SlowScen {
 		{Name: "record_for_the_flow_during_its_active_export", ActiveMs: 400, InactMs: 60000, RecordDuring: true},
 		{Name: "first_record_of_another_flow_waits_for_a_slow_scan", ActiveMs: 60000, InactMs: 400, SleepMs: 700, RecordOther: true},
 		{Name: "callbacks_take_longer_than_the_active_timeout", ActiveMs: 150, InactMs: 60000, SleepMs: 100, ManyDue: true},
+		{Name: "scan_requested_while_a_slow_visitor_holds_the_process", ActiveMs: 400, InactMs: 60000, SleepMs: 600, ScanWaits: true},
 	}
 }
 
@@ -84,6 +90,52 @@ func RunSlow(sc SlowScen) *ev.Failure {
 	t0 := time.Now()
 	rc := func(fi int) error {
 		return ap.AggregateMsgByFlowKey(Message(fl, Rec{Flow: fi, Side: "S", Start: 1000, End: 2000, Tot: [4]uint64{1, 2, 1, 2}, Dlt: [4]uint64{1, 1, 1, 1}}))
+	}
+	if sc.ScanWaits {
+		if err := rc(0); err != nil {
+			return ev.Failf("%s: %v", sc.Name, err)
+		}
+		created := time.Now()
+		visiting, visited := make(chan struct{}), make(chan time.Time, 1)
+		go func() {
+			first := true
+			ap.ForAllRecordsDo(func(intermediate.FlowKey, *intermediate.AggregationFlowRecord) error {
+				if first {
+					first = false
+					close(visiting)
+					time.Sleep(sleep)
+				}
+				return nil
+			})
+			visited <- time.Now()
+		}()
+		<-visiting
+		time.Sleep(50 * time.Millisecond)
+		requested := time.Now()
+		var got []string
+		if err := ap.ForAllExpiredFlowRecordsDo(func(k intermediate.FlowKey, _ *intermediate.AggregationFlowRecord) error {
+			got = append(got, k.SourceAddress)
+			return nil
+		}); err != nil {
+			return ev.Failf("%s: scan: %v", sc.Name, err)
+		}
+		ran := <-visited // the scan cannot have run before the visitor returned
+		deadline := created.Add(time.Duration(sc.ActiveMs) * time.Millisecond)
+		if requested.Before(deadline.Add(-20*time.Millisecond)) && ran.After(deadline.Add(20*time.Millisecond)) && len(got) == 0 {
+			return ev.Failf("%s: the scan was requested %v before flow 0's active deadline, had to wait for a visitor that held the process until %v after the deadline, and did not hand the flow over: it judged the deadlines as of the time it was requested, not the time it ran", sc.Name, deadline.Sub(requested).Round(time.Millisecond), ran.Sub(deadline).Round(time.Millisecond))
+		}
+		if len(got) == 1 {
+			// re-armed from the time the scan ran: an immediate second scan has nothing to do
+			n := 0
+			ap.ForAllExpiredFlowRecordsDo(func(intermediate.FlowKey, *intermediate.AggregationFlowRecord) error { n++; return nil })
+			if n != 0 && time.Since(ran) < time.Duration(sc.ActiveMs)*time.Millisecond*8/10 {
+				return ev.Failf("%s: flow 0 was exported by a scan that had waited %v for the process, and again by a scan %v later (active timeout %d ms): it was re-armed from the time the first scan was requested", sc.Name, ran.Sub(requested).Round(time.Millisecond), time.Since(ran).Round(time.Millisecond), sc.ActiveMs)
+			}
+		}
+		if d := Structural(ap); d != "" {
+			return ev.Failf("%s: %s", sc.Name, d)
+		}
+		return nil
 	}
 	if sc.ManyDue {
 		for fi := range fl {
